@@ -419,17 +419,27 @@ def run_check(prop, tier, seed):
         bad = forbidden_constructs()
         if bad:
             broken.append({"kind": "forbidden-construct", "where": bad})
-        targets = [prop.props_file[:-2] + ".vo"] if prop.props_file else []
+        pfiles = ([prop.props_file] if prop.props_file else []) + list(getattr(prop, "extra_props_files", []))
+        targets = [f[:-2] + ".vo" for f in pfiles]
         model_targets = sorted({t for c in prop.correspondences() for t in c.requires})
         ok_models, log_m = make(model_targets) if model_targets else (True, "")
         ok_props, log_p = make(targets) if targets else (True, "")
-        thms, examples = theorem_names(prop.props_file) if prop.props_file else ([], [])
+        thms, examples = [], []
+        for f in pfiles:
+            t_, e_ = theorem_names(f)
+            thms += t_
+            examples += e_
         pa = None
-        if ok_props and prop.props_file:
-            pa, pa_out = print_assumptions(prop.props_file)
-            if pa is None:
-                ok_props = False
-                log_p += "\n" + pa_out
+        if ok_props and pfiles:
+            pa = []
+            for f in pfiles:
+                pa_f, pa_out = print_assumptions(f)
+                if pa_f is None:
+                    ok_props = False
+                    pa = None
+                    log_p += "\n" + pa_out
+                    break
+                pa += pa_f
     if not ok_props:
         m = re.search(r'File "([^"]+)", line (\d+).*?\n(Error:.*?)(?:\n\n|\Z)', log_p, flags=re.S)
         broken.append({"kind": "proof", "file": m.group(1) if m else prop.props_file, "line": int(m.group(2)) if m else None,
@@ -450,14 +460,16 @@ def run_check(prop, tier, seed):
                 if nm and not line.startswith(" " * 4) and nm not in allowed and ":" in line:
                     broken.append({"kind": "axiom", "theorem": n, "axiom": line.strip()})
     # thorough tier: independent re-check of the compiled property file and everything it depends on
-    if tier == "thorough" and ok_props and prop.props_file:
-        mod = "PE." + prop.props_file[:-2].replace("/", ".")
-        rcc, outc = sh(f"coqchk -o -silent -Q theories PE {mod}", timeout=3000, cwd=COQ)
-        summ = outc[outc.find("CONTEXT SUMMARY"):] if "CONTEXT SUMMARY" in outc else outc[-1500:]
-        cov["coqchk"] = {"cmd": f"coqchk -o -silent -Q theories PE {mod}", "exit": rcc, "summary": summ.strip()[:3000]}
-        m_ax = re.search(r"\* Axioms:\s*(.*?)\n\s*\n", summ, flags=re.S)
-        if rcc != 0 or not m_ax or m_ax.group(1).strip() != "<none>":
-            broken.append({"kind": "axiom", "theorem": mod, "axiom": "coqchk: " + (m_ax.group(1).strip() if m_ax else summ[-500:])})
+    if tier == "thorough" and ok_props and pfiles:
+        cov["coqchk"] = []
+        for f in pfiles:
+            mod = "PE." + f[:-2].replace("/", ".")
+            rcc, outc = sh(f"coqchk -o -silent -Q theories PE {mod}", timeout=3000, cwd=COQ)
+            summ = outc[outc.find("CONTEXT SUMMARY"):] if "CONTEXT SUMMARY" in outc else outc[-1500:]
+            cov["coqchk"].append({"cmd": f"coqchk -o -silent -Q theories PE {mod}", "exit": rcc, "summary": summ.strip()[:3000]})
+            m_ax = re.search(r"\* Axioms:\s*(.*?)\n\s*\n", summ, flags=re.S)
+            if rcc != 0 or not m_ax or m_ax.group(1).strip() != "<none>":
+                broken.append({"kind": "axiom", "theorem": mod, "axiom": "coqchk: " + (m_ax.group(1).strip() if m_ax else summ[-500:])})
     cov["theorems"] = thms
     cov["nonvacuity_examples"] = examples
     cov["print_assumptions"] = {n: t for n, t in (pa or [])}
@@ -584,7 +596,7 @@ def run_check(prop, tier, seed):
     cov.update({
         "obligations": obligations,
         "discharged": discharged,
-        "checker_cmd": f"cd /verif/coq && make theories/{(prop.props_file or '')[:-2]}.vo && coqc -Q theories PE theories/{prop.props_file}  (Print Assumptions per theorem); correspondences: coqc on build/cases/{pid}_*/s*.v (Eval vm_compute in failing cases)",
+        "checker_cmd": f"cd /verif/coq && make {' '.join('theories/' + f[:-2] + '.vo' for f in pfiles)} && coqc -Q theories PE {' '.join('theories/' + f for f in pfiles)}  (Print Assumptions per theorem); correspondences: coqc on build/cases/{pid}_*/s*.v (Eval vm_compute in failing cases)",
         "trusted_base": TRUSTED_BASE_COMMON + list(prop.trusted_base_extra),
         "evaluations": n_eval,
         "distinct_nontrivial": len(nontrivial),
